@@ -8,10 +8,12 @@
 -/
 import Driver.CoreCmd
 import Driver.RewriteCmd
+import Driver.CQCmd
 
 def handlers : List (String → List String → Option String) :=
   [ DV.CoreCmd.handle
   , DV.RewriteCmd.handle
+  , DV.CQCmd.handle
   ]
 
 def handle (line : String) : String :=
